@@ -80,6 +80,8 @@ FullProds ==
         <<"BS", "set", "N", ".", "N", "=", "ExprT", "BE">>,
         Body(<<"set", "N">>, "endset"),
         Body(<<"set", "N", "|", "F">>, "endset"),
+        Body(<<"set", "N", "|", "F", "(", "Args", ")">>, "endset"),       \* filter arguments that name variables (F-C01-6)
+        Body(<<"set", "N", "|", "F", "(", "Args", ")", "|", "F">>, "endset"),
         Body(<<"with">>, "endwith"),
         Body(<<"with", "N", "=", "Expr">>, "endwith"),
         Body(<<"with", "N", "=", "Expr", ",", "N", "=", "Expr">>, "endwith"),
